@@ -3,7 +3,10 @@
 // Where tlx offers several overloads of one function (in-place / copying, std::string / string_view /
 // const char*, char / string argument) all applicable ones are called; a disagreement is appended as
 // " !OVERLOAD:<which>".
+#include <cstdint>
 #include <cstdio>
+#include <deque>
+#include <list>
 #include <cstdlib>
 #include <cstring>
 #include <fstream>
@@ -18,15 +21,19 @@
 #include <tlx/string/compare_icase.hpp>
 #include <tlx/string/contains.hpp>
 #include <tlx/string/ends_with.hpp>
+#include <tlx/string/equal_icase.hpp>
 #include <tlx/string/erase_all.hpp>
 #include <tlx/string/hexdump.hpp>
 #include <tlx/string/join.hpp>
+#include <tlx/string/join_generic.hpp>
 #include <tlx/string/join_quoted.hpp>
+#include <tlx/string/less_icase.hpp>
 #include <tlx/string/levenshtein.hpp>
 #include <tlx/string/pad.hpp>
 #include <tlx/string/replace.hpp>
 #include <tlx/string/split.hpp>
 #include <tlx/string/split_quoted.hpp>
+#include <tlx/string/split_view.hpp>
 #include <tlx/string/starts_with.hpp>
 #include <tlx/string/to_lower.hpp>
 #include <tlx/string/to_upper.hpp>
@@ -65,6 +72,27 @@ struct Exact {
     tlx::string_view view() const { return tlx::string_view(p, n); }
 };
 
+
+typedef std::vector<tlx::string_view> VV;
+// materialise views; a view that does not lie inside the source buffer is reported, never dereferenced
+static bool views_to_strings(const VV& v, const char* base, size_t n, VS& out) {
+    out.clear();
+    for (const auto& x : v) {
+        if (x.size() == 0) { out.push_back(S()); continue; }
+        if (x.data() < base || x.size() > n || x.data() + x.size() > base + n) return false;
+        out.push_back(S(x.data(), x.size()));
+    }
+    return true;
+}
+template <typename F> static S view_check(const VS& expect, bool expect_exc, const char* base, size_t n, F f) {
+    try {
+        VV v = f(); VS w;
+        if (!views_to_strings(v, base, n, w)) return "view outside the source string";
+        if (expect_exc) return "no exception";
+        return w == expect ? "" : "different parts";
+    } catch (const std::exception&) { return expect_exc ? "" : "exception"; }
+}
+
 static VS parts_of(std::istringstream& in) {
     size_t n; in >> n; VS v; S t;
     for (size_t i = 0; i < n; ++i) { in >> t; v.push_back(unhex(t)); }
@@ -87,9 +115,18 @@ static S run_case(const S& line) {
         out << "enc=" << hex(e) << " decs=" << guard([&] { return hex(tlx::base64_decode(xe.view(), true)); })
             << " decn=" << guard([&] { return hex(tlx::base64_decode(xe.view(), false)); });
         if (e2 != e) out << " !OVERLOAD:base64_encode(void*)";
+        if (lb == 0 && (tlx::base64_encode(xs.view()) != e || tlx::base64_encode(xs.p, xs.n) != e)) out << " !OVERLOAD:base64_encode(default line_break)";
+        S dv = guard([&] { return hex(tlx::base64_decode(xe.p, xe.n, true)); }), dvn = guard([&] { return hex(tlx::base64_decode(xe.p, xe.n, false)); });
+        S dd = guard([&] { return hex(tlx::base64_decode(xe.view())); }), ddv = guard([&] { return hex(tlx::base64_decode(xe.p, xe.n)); });
+        S ds = guard([&] { return hex(tlx::base64_decode(xe.view(), true)); }), dn = guard([&] { return hex(tlx::base64_decode(xe.view(), false)); });
+        if (dv != ds || dvn != dn) out << " !OVERLOAD:base64_decode(void*)";
+        if (dd != ds || ddv != ds) out << " !OVERLOAD:base64_decode(default strict)";
     } else if (op == "b64d") {
         S hs; int strict; in >> hs >> strict; S s = unhex(hs); Exact xs(s);
-        out << "out=" << guard([&] { return hex(tlx::base64_decode(xs.view(), strict != 0)); });
+        S r = guard([&] { return hex(tlx::base64_decode(xs.view(), strict != 0)); });
+        out << "out=" << r;
+        if (guard([&] { return hex(tlx::base64_decode(xs.p, xs.n, strict != 0)); }) != r) out << " !OVERLOAD:base64_decode(void*)";
+        if (strict && (guard([&] { return hex(tlx::base64_decode(xs.view())); }) != r || guard([&] { return hex(tlx::base64_decode(xs.p, xs.n)); }) != r)) out << " !OVERLOAD:base64_decode(default strict)";
     } else if (op == "hex") {
         S hs; in >> hs; S s = unhex(hs); Exact xs(s);
         S u = tlx::hexdump(xs.view()), l = tlx::hexdump_lc(xs.view());
@@ -99,6 +136,13 @@ static S run_case(const S& line) {
             << " plc=" << guard([&] { return hex(tlx::parse_hexdump(xl.view())); });
         if (tlx::hexdump(vc) != u || tlx::hexdump(vu) != u || tlx::hexdump(xs.p, xs.n) != u) out << " !OVERLOAD:hexdump";
         if (tlx::hexdump_lc(vc) != l || tlx::hexdump_lc(vu) != l || tlx::hexdump_lc(xs.p, xs.n) != l) out << " !OVERLOAD:hexdump_lc";
+        if (s.size() == 1) { std::uint8_t t; memcpy(&t, s.data(), 1); if (tlx::hexdump_type(t) != u || tlx::hexdump_lc_type(t) != l) out << " !OVERLOAD:hexdump_type<uint8_t>"; }
+        if (s.size() == 2) { std::uint16_t t; memcpy(&t, s.data(), 2); if (tlx::hexdump_type(t) != u || tlx::hexdump_lc_type(t) != l) out << " !OVERLOAD:hexdump_type<uint16_t>"; }
+        if (s.size() == 4) { std::uint32_t t; memcpy(&t, s.data(), 4); if (tlx::hexdump_type(t) != u || tlx::hexdump_lc_type(t) != l) out << " !OVERLOAD:hexdump_type<uint32_t>"; }
+        if (s.size() == 8) { std::uint64_t t; memcpy(&t, s.data(), 8); if (tlx::hexdump_type(t) != u || tlx::hexdump_lc_type(t) != l) out << " !OVERLOAD:hexdump_type<uint64_t>"; }
+        if (s.size() == 12) { struct { unsigned char b[12]; } t; memcpy(&t, s.data(), 12); if (tlx::hexdump_type(t) != u || tlx::hexdump_lc_type(t) != l) out << " !OVERLOAD:hexdump_type<struct>"; }
+        // Python-only part (no Coq model): hexdump_sourcecode with an explicit and with the default variable name
+        out << " ## src=" << hex(tlx::hexdump_sourcecode(xs.view(), "v")) << " srcn=" << hex(tlx::hexdump_sourcecode(xs.view()));
     } else if (op == "phex") {
         S hs; in >> hs; S s = unhex(hs); Exact xs(s);
         out << "out=" << guard([&] { return hex(tlx::parse_hexdump(xs.view())); });
@@ -109,8 +153,24 @@ static S run_case(const S& line) {
             VS v = op == "splcm" ? tlx::split(sep, xs.view(), mn, limit_of(lim)) : tlx::split(sep, xs.view(), limit_of(lim));
             VS w; w.push_back("junk");
             if (op == "splcm") tlx::split(&w, sep, xs.view(), mn, limit_of(lim)); else tlx::split(&w, sep, xs.view(), limit_of(lim));
-            return show(v) + (v == w ? "" : " !OVERLOAD:split(into)");
+            S flags = v == w ? "" : " !OVERLOAD:split(into)";
+            if (lim == "npos" && op == "splc") { VS d1 = tlx::split(sep, xs.view()); VS d2; d2.push_back("junk"); tlx::split(&d2, sep, xs.view()); if (d1 != v || d2 != v) flags += " !OVERLOAD:split(char,default limit)"; }
+            return show(v) + flags;
         });
+        {   // split_view, all char-separator overloads: same parts as split()
+            VS expect; bool exc = false; try { expect = op == "splcm" ? tlx::split(sep, xs.view(), mn, limit_of(lim)) : tlx::split(sep, xs.view(), limit_of(lim)); } catch (const std::exception&) { exc = true; }
+            size_t L = limit_of(lim); S why;
+            if (op == "splcm") {
+                why = view_check(expect, exc, xs.p, xs.n, [&] { return tlx::split_view(sep, xs.view(), mn, L); });
+                if (why.empty()) why = view_check(expect, exc, xs.p, xs.n, [&] { VV w; w.resize(2); tlx::split_view(&w, sep, xs.view(), mn, L); return w; });
+            } else {
+                why = view_check(expect, exc, xs.p, xs.n, [&] { return tlx::split_view(sep, xs.view(), L); });
+                if (why.empty()) why = view_check(expect, exc, xs.p, xs.n, [&] { VV w; w.resize(2); tlx::split_view(&w, sep, xs.view(), L); return w; });
+                if (why.empty() && lim == "npos") why = view_check(expect, exc, xs.p, xs.n, [&] { return tlx::split_view(sep, xs.view()); });
+                if (why.empty() && lim == "npos") why = view_check(expect, exc, xs.p, xs.n, [&] { VV w; tlx::split_view(&w, sep, xs.view()); return w; });
+            }
+            if (!why.empty()) out << " !OVERLOAD:split_view(char):" << why;
+        }
     } else if (op == "spls" || op == "splsm") {
         S hsep, hs, lim; size_t mn = 0; in >> hsep >> hs; if (op == "splsm") in >> mn; in >> lim;
         S s = unhex(hs), sep = unhex(hsep); Exact xs(s), xsep(sep);
@@ -118,17 +178,40 @@ static S run_case(const S& line) {
             VS v = op == "splsm" ? tlx::split(xsep.view(), xs.view(), mn, limit_of(lim)) : tlx::split(xsep.view(), xs.view(), limit_of(lim));
             VS w; w.push_back("junk");
             if (op == "splsm") tlx::split(&w, xsep.view(), xs.view(), mn, limit_of(lim)); else tlx::split(&w, xsep.view(), xs.view(), limit_of(lim));
-            return show(v) + (v == w ? "" : " !OVERLOAD:split(into)");
+            S flags = v == w ? "" : " !OVERLOAD:split(into)";
+            if (lim == "npos" && op == "spls") { VS d1 = tlx::split(xsep.view(), xs.view()); VS d2; d2.push_back("junk"); tlx::split(&d2, xsep.view(), xs.view()); if (d1 != v || d2 != v) flags += " !OVERLOAD:split(string,default limit)"; }
+            return show(v) + flags;
         });
+        {   // split_view, all string-separator overloads: same parts as split()
+            VS expect; bool exc = false; try { expect = op == "splsm" ? tlx::split(xsep.view(), xs.view(), mn, limit_of(lim)) : tlx::split(xsep.view(), xs.view(), limit_of(lim)); } catch (const std::exception&) { exc = true; }
+            size_t L = limit_of(lim); S why;
+            if (op == "splsm") {
+                why = view_check(expect, exc, xs.p, xs.n, [&] { return tlx::split_view(xsep.view(), xs.view(), mn, L); });
+                if (why.empty()) why = view_check(expect, exc, xs.p, xs.n, [&] { VV w; w.resize(2); tlx::split_view(&w, xsep.view(), xs.view(), mn, L); return w; });
+            } else {
+                why = view_check(expect, exc, xs.p, xs.n, [&] { return tlx::split_view(xsep.view(), xs.view(), L); });
+                if (why.empty()) why = view_check(expect, exc, xs.p, xs.n, [&] { VV w; w.resize(2); tlx::split_view(&w, xsep.view(), xs.view(), L); return w; });
+                if (why.empty() && lim == "npos") why = view_check(expect, exc, xs.p, xs.n, [&] { return tlx::split_view(xsep.view(), xs.view()); });
+                if (why.empty() && lim == "npos") why = view_check(expect, exc, xs.p, xs.n, [&] { VV w; tlx::split_view(&w, xsep.view(), xs.view()); return w; });
+            }
+            if (!why.empty()) out << " !OVERLOAD:split_view(string):" << why;
+        }
     } else if (op == "joinc") {
         S hsep; in >> hsep; char sep = byte_of(hsep); VS parts = parts_of(in);
         S j = tlx::join(sep, parts); Exact xj(j);
         out << "j=" << hex(j) << " s=" << guard([&] { return show(tlx::split(sep, xj.view())); });
+        std::list<S> pl(parts.begin(), parts.end()); std::deque<S> pd(parts.begin(), parts.end());
+        if (tlx::join(sep, pl.begin(), pl.end()) != j || tlx::join(sep, parts.begin(), parts.end()) != j) out << " !OVERLOAD:join(char,first,last)";
+        if (tlx::join(sep, pl) != j || tlx::join(sep, pd) != j) out << " !OVERLOAD:join(char,Container)";
     } else if (op == "joins") {
         S hsep; in >> hsep; S sep = unhex(hsep); VS parts = parts_of(in); Exact xsep(sep);
         S j = tlx::join(xsep.view(), parts); Exact xj(j);
         out << "j=" << hex(j) << " s=" << guard([&] { return show(tlx::split(xsep.view(), xj.view())); });
         if (no_nul(sep) && tlx::join(sep.c_str(), parts) != j) out << " !OVERLOAD:join(const char*)";
+        std::list<S> pl(parts.begin(), parts.end()); std::deque<S> pd(parts.begin(), parts.end());
+        if (tlx::join(xsep.view(), pl.begin(), pl.end()) != j || tlx::join(sep, parts.begin(), parts.end()) != j) out << " !OVERLOAD:join(string,first,last)";
+        if (no_nul(sep) && tlx::join(sep.c_str(), pl.begin(), pl.end()) != j) out << " !OVERLOAD:join(const char*,first,last)";
+        if (tlx::join(xsep.view(), pl) != j || tlx::join(xsep.view(), pd) != j) out << " !OVERLOAD:join(string_view,Container)";
     } else if (op == "jq") {
         S a, b, c; in >> a >> b >> c; char sep = byte_of(a), q = byte_of(b), e = byte_of(c); VS parts = parts_of(in);
         S j = tlx::join_quoted(parts, sep, q, e); Exact xj(j);
@@ -202,10 +285,22 @@ static S run_case(const S& line) {
         S a = s, b = s; tlx::to_lower(&a); tlx::to_upper(&b);
         out << "lo=" << hex(lo) << " up=" << hex(up);
         if (a != lo || b != up) out << " !OVERLOAD:in-place";
+        S cl, cu; for (char c : s) { cl += tlx::to_lower(c); cu += tlx::to_upper(c); }
+        if (cl != lo || cu != up) out << " !OVERLOAD:to_lower(char)/to_upper(char)";
     } else if (op == "cmp") {
         S ha, hb; in >> ha >> hb; S a = unhex(ha), b = unhex(hb); Exact xa(a), xb(b);
         int r = tlx::compare_icase(xa.view(), xb.view());
-        out << r;
+        bool eq = tlx::equal_icase(xa.view(), xb.view()), lt = tlx::less_icase(xa.view(), xb.view());
+        out << r << " eq=" << b2s(eq) << " lt=" << b2s(lt);
+        if (tlx::less_icase_asc()(xa.view(), xb.view()) != lt || tlx::less_icase_desc()(xa.view(), xb.view()) != !lt) out << " !OVERLOAD:less_icase_asc/desc";
+        if (no_nul(a) && no_nul(b)) {
+            if (tlx::equal_icase(a.c_str(), b.c_str()) != eq) out << " !OVERLOAD:equal_icase(const char*,const char*)";
+            if (tlx::equal_icase(a.c_str(), xb.view()) != eq) out << " !OVERLOAD:equal_icase(const char*,string_view)";
+            if (tlx::equal_icase(xa.view(), b.c_str()) != eq) out << " !OVERLOAD:equal_icase(string_view,const char*)";
+            if (tlx::less_icase(a.c_str(), b.c_str()) != lt) out << " !OVERLOAD:less_icase(const char*,const char*)";
+            if (tlx::less_icase(a.c_str(), xb.view()) != lt) out << " !OVERLOAD:less_icase(const char*,string_view)";
+            if (tlx::less_icase(xa.view(), b.c_str()) != lt) out << " !OVERLOAD:less_icase(string_view,const char*)";
+        }
         if (no_nul(a) && no_nul(b)) {
             if (tlx::compare_icase(a.c_str(), b.c_str()) != r || tlx::compare_icase(a.c_str(), xb.view()) != r ||
                 tlx::compare_icase(xa.view(), b.c_str()) != r) out << " !OVERLOAD:compare_icase(const char*)";
@@ -218,10 +313,13 @@ static S run_case(const S& line) {
         if (d.size() == 1) {
             S j = s; tlx::erase_all(&j, d[0]);
             if (tlx::erase_all(xs.view(), d[0]) != c || j != i) out << " !OVERLOAD:erase_all(char)";
+            if (d[0] == ' ') { S k = s; tlx::erase_all(&k); if (tlx::erase_all(xs.view()) != c || k != i) out << " !OVERLOAD:erase_all(default drop)"; }
         }
     } else if (op == "pad") {
         S hs, hc; size_t len; in >> hs >> len >> hc; S s = unhex(hs); Exact xs(s);
-        out << hex(tlx::pad(xs.view(), len, byte_of(hc)));
+        S r = tlx::pad(xs.view(), len, byte_of(hc));
+        out << hex(r);
+        if (byte_of(hc) == ' ' && tlx::pad(xs.view(), len) != r) out << " !OVERLOAD:pad(default pad_char)";
     } else if (op == "lev") {
         S ha, hb; in >> ha >> hb; S a = unhex(ha), b = unhex(hb); Exact xa(a), xb(b);
         size_t d = tlx::levenshtein(xa.view(), xb.view()), di = tlx::levenshtein_icase(xa.view(), xb.view());
